@@ -413,6 +413,77 @@ py::object PyTreeSpec::ToPickleable() const {
         node.num_leaves = thread_safe_cast<ssize_t>(t[5]);
         node.num_nodes = thread_safe_cast<ssize_t>(t[6]);
     }
+    // Validate the node array. All the PyTreeSpec methods trust that the nodes are in a consistent
+    // post-order layout and that the metadata matches the arity of the node.
+    {
+        auto pending = reserved_vector<std::pair<ssize_t, ssize_t>>(4);  // (num_leaves, num_nodes)
+        for (const Node& node : out->m_traversal) {
+            bool ok = (node.arity >= 0 && py::ssize_t_cast(pending.size()) >= node.arity);
+            ssize_t num_leaves = (node.kind == PyTreeKind::Leaf ? 1 : 0);
+            ssize_t num_nodes = 1;
+            if (ok) [[likely]] {
+                for (ssize_t i = 0; i < node.arity; ++i) {
+                    num_leaves += pending.back().first;
+                    num_nodes += pending.back().second;
+                    pending.pop_back();
+                }
+                ok = (node.num_leaves == num_leaves && node.num_nodes == num_nodes);
+            }
+            if (ok) [[likely]] {
+                switch (node.kind) {
+                    case PyTreeKind::Leaf:
+                    case PyTreeKind::None: {
+                        ok = (node.arity == 0);
+                        break;
+                    }
+                    case PyTreeKind::Dict:
+                    case PyTreeKind::OrderedDict: {
+                        ok = (ListGetSize(node.node_data) == node.arity);
+                        break;
+                    }
+                    case PyTreeKind::DefaultDict: {
+                        ok = (static_cast<bool>(PyTuple_CheckExact(node.node_data.ptr())) &&
+                              TupleGetSize(node.node_data) == 2);
+                        if (ok) [[likely]] {
+                            const py::object keys = TupleGetItem(node.node_data, 1);
+                            ok = (static_cast<bool>(PyList_CheckExact(keys.ptr())) &&
+                                  ListGetSize(keys) == node.arity);
+                        }
+                        break;
+                    }
+                    case PyTreeKind::NamedTuple: {
+                        ok = (TupleGetSize(NamedTupleGetFields(node.node_data)) == node.arity);
+                        break;
+                    }
+                    case PyTreeKind::StructSequence: {
+                        ok = (TupleGetSize(StructSequenceGetFields(node.node_data)) == node.arity);
+                        break;
+                    }
+                    case PyTreeKind::Deque: {
+                        ok = (node.node_data.is_none() ||
+                              static_cast<bool>(PyLong_Check(node.node_data.ptr())));
+                        break;
+                    }
+                    case PyTreeKind::Custom: {
+                        ok = (!node.node_entries || TupleGetSize(node.node_entries) == node.arity);
+                        break;
+                    }
+                    default:
+                        break;
+                }
+            }
+            if (ok && node.original_keys) [[unlikely]] {
+                ok = (ListGetSize(node.original_keys) == node.arity);
+            }
+            if (!ok) [[unlikely]] {
+                throw std::runtime_error("Malformed pickled PyTreeSpec.");
+            }
+            pending.emplace_back(num_leaves, num_nodes);
+        }
+        if (pending.size() != 1) [[unlikely]] {
+            throw std::runtime_error("Malformed pickled PyTreeSpec.");
+        }
+    }
     out->m_traversal.shrink_to_fit();
     PYTREESPEC_SANITY_CHECK(*out);
     return out;
